@@ -3,6 +3,7 @@ package benchmath
 // C13: summaries and comparisons honour their statistical contracts.
 
 import (
+	"github.com/aclements/go-moremath/stats"
 	"fmt"
 	"math"
 	"strings"
@@ -163,6 +164,18 @@ func H13Compare() {
 			}
 		}
 	}
+	// "all samples are equal" is reported exactly when every pooled value is the same
+	allEqual := true
+	for i := range pool {
+		allEqual = vndAnd(allEqual, pool[i] == pool[0])
+	}
+	saysEqual := false
+	for _, w := range c.Warnings {
+		if w == stats.ErrSamplesEqual {
+			saysEqual = true
+		}
+	}
+	vndAssert(saysEqual == allEqual, "all-equal-reported-exactly-when-all-values-are-equal")
 	if untied {
 		vndReach("h13:untied")
 		cs := AssumeNothing.Compare(s2, s1)
